@@ -28,6 +28,7 @@ struct ExecOp
     bool verbose = false, skip_ws = true, skip_nl = true;
     std::string input;          // final bytes (after all input faults)
     int op_index = 0;           // index inside the task (for simrt::begin_op)
+    void* shared_opts = nullptr;         // storage of the task's long-lived ctpg::parse_options object (C15: options are the caller's object)
     std::ostream* shared_os = nullptr;   // STR_SIM: the task's long-lived stream object shared by its calls (C15 histories)
     bool hash_image = false;    // FNV of the parser object's bytes before/after the call (C15)
 };
